@@ -42,6 +42,11 @@ RULE = ('the real helpers are called with scripted callables / a scripted interf
         'behind a refused 1-byte read or a completed answer without data, every Get / Delete carries the most recent '
         'reservation, unexpected codes (also on Reserve SEL) propagate and end the call, a result is the stored record '
         '(also when it arrived in truncated pieces).  '
+        'FIRST POSITION x EVERY BUDGET: for budgets 1..12 and every helper with a budget, every outcome in the first position '
+        '(and in the second behind each retried outcome) x every tail, before the depth-first exploration (a defect that '
+        'needs one budget and one outcome at one position is met whatever the exploration is cut to).  WAITS: the stand-in '
+        'for time.sleep accepts / refuses durations as the real one (negative, NaN -> ValueError; non-number -> TypeError) and '
+        'records them; judged per run.  '
         'RESERVE OUTCOMES for the three helpers too: reserve_fn raises CompletionCodeError (node busy / timeout / other) at '
         'its k-th call, k = 0..2 (compared with the model, judged: the error propagates, nothing is called after it).')
 ASSUMPTIONS = [
@@ -49,7 +54,12 @@ ASSUMPTIONS = [
     '(Model/Retry.lean) and tied by this correspondence run; constants, loop tests and call sites are re-read from the source by '
     'harness/translate/loops11.py on every run',
     'reserve_fn grants consecutive ids (so a stale reservation is visible) unless the case schedules a failure for its k-th '
-    'call; time.sleep is substituted by a recorder',
+    'call; time.sleep is substituted by a recorder that costs no time but treats its ARGUMENT as the real time.sleep '
+    'does (harness/sim/realsleep.py: ValueError for a negative / NaN duration, TypeError for a non-number, OverflowError '
+    'beyond 2^63 ns) - so a wait the real function refuses ends the helper here as it does in production; the waits of '
+    'every run are recorded and judged by the oracle (refused duration = the operation ends with a foreign exception '
+    'instead of the repeat; more than 3600 s of waiting in one call = does not end in practice).  The Lean model has no '
+    'waits (Model/Retry.lean: sleep is not an effect of the model); durations are judged on the real code only',
     'an outcome sequence is a finite prefix followed by one letter repeated for ever; the theorems quantify over all of them and all '
     'budgets, the exploration over the prefixes a run can consume',
     'get_sdr_chunk_helper with retry=0 counts below zero and is outside the model (budgets are >= 1)',
@@ -80,6 +90,15 @@ CODE = {'C': 0x00, 'P': 0x00, 'R': 0xC5, 'T': 0xC3, 'U': 0xCE, 'B': 0xC0}
 
 _gen = None
 _gen10 = None
+_clock = None                   # the dev11.FakeTime in place while the helpers run (run / replay)
+WAIT_BOUND_S = 3600.0           # one helper call asking for more than an hour of waiting does not end in practice
+
+
+class Res(tuple):
+    """(tag, trace) of one run of a helper + what it asked time.sleep for: `waits` (accepted durations, seconds) and
+    `rejected` ((repr of the argument, exception name, message) of a call the real time.sleep refuses)."""
+    waits = ()
+    rejected = ()
 
 
 def code_of(letter):
@@ -427,7 +446,7 @@ def probe_stale_variant():
     return seen.pop() if len(seen) == 1 else None
 
 
-def runner(helper, budget, rv, rplan=()):
+def _runner(helper, budget, rv, rplan=()):
     if helper in SDR_HELPERS:
         return lambda p, t: run_sdr(helper, rv, p, t)
     if helper in SEL_HELPERS:
@@ -439,6 +458,23 @@ def runner(helper, budget, rv, rplan=()):
     if helper == 'send':
         return lambda p, t: run_send(budget, p, t)
     return lambda p, t: run_glue(helper, budget, p, t, rplan)
+
+
+def runner(helper, budget, rv, rplan=()):
+    """-> fn(prefix, tail) -> Res: the run together with the waits it asked for (the stand-in for time.sleep accepts
+    and refuses durations as the real one does, sim/realsleep.py)."""
+    fn = _runner(helper, budget, rv, rplan)
+
+    def run_one(p, t):
+        if _clock is not None:
+            del _clock.sleeps[:]
+            del _clock.rejected[:]
+        res = Res(fn(p, t))
+        if _clock is not None:
+            res.waits = tuple(_clock.sleeps)
+            res.rejected = tuple(_clock.rejected)
+        return res
+    return run_one
 
 
 def model_line(helper, budget, rv, letters, tail, send_variant, stale_variant=True, rplan=()):
@@ -644,8 +680,42 @@ def oracle_sel(helper, budget, rv, tag, trace):
     return bad
 
 
-def oracle(helper, budget, rv, tag, trace):
+HELPER_NAME = {'chunk': 'get_sdr_chunk_helper', 'clear': 'clear_repository_helper', 'send': 'send_message',
+               'data:r': 'get_repository_sdr', 'data:d': 'get_device_sdr', 'list:r': 'sdr_repository_entries',
+               'list:d': 'device_sdr_entries', 'sel:entry': 'get_sel_entry', 'sel:gac': 'get_and_clear_sel_entry'}
+
+
+def oracle_waits(helper, tag, trace, waits, rejected):
+    """The waits between the requests: a duration the real time.sleep refuses (negative, NaN, not a number) ends the
+    operation in production with that ValueError / TypeError - after the requests made so far, without the repeat the
+    property asks for and with an exception that is neither the completed result, nor the propagated completion code,
+    nor RetryError; a call that asks for more than WAIT_BOUND_S of waiting does not end in practice."""
+    name = HELPER_NAME.get(helper, helper)
+    bad = []
+    if rejected:
+        arg, exc, msg = rejected[0]
+        bad.append(('bad-wait-duration:%s' % name,
+                    '%s called time.sleep(%s) after %d request(s): the real time.sleep raises %s(%r) - the operation ends '
+                    'with %s instead of repeating the request / raising RetryError or the completion code' % (
+                        name, arg, sum(1 for e in trace if e[0] not in 'rf'), exc, msg, tag)))
+    total = sum(waits)
+    if total > WAIT_BOUND_S:
+        bad.append(('unbounded-wait:%s' % name, '%s asked for %.0f s of waiting in one call (%d waits, longest %.0f s)' % (
+            name, total, len(waits), max(waits))))
+    return bad
+
+
+def oracle(helper, budget, rv, tag, trace, waits=(), rejected=()):
     """-> list of (signature-suffix, what)."""
+    bad = _oracle(helper, budget, rv, tag, trace)
+    w = oracle_waits(helper, tag, trace, waits, rejected)
+    if rejected and tag == 'py:' + rejected[0][1]:
+        # the unexpected exception IS the refused wait: report it under the specific signature only
+        bad = [b for b in bad if not b[0].startswith(('other-exception:', 'exhaustion:'))]
+    return w + bad
+
+
+def _oracle(helper, budget, rv, tag, trace):
     if helper in SDR_HELPERS:
         return oracle_sdr(helper, rv, tag, trace)
     if helper in SEL_HELPERS:
@@ -780,7 +850,9 @@ class _Found(object):
         self.best = {}
 
     def add(self, sig, what, case, expected, observed):
-        k = (len(case['script']), len(case.get('reserve_plan', ())), case['budget'] or 0, case['tail'] or '')
+        # witnesses inside the property's quantifier (budgets 1..6) before the seeded larger budgets
+        k = ((case['budget'] or 0) > 6, len(case['script']), len(case.get('reserve_plan', ())), case['budget'] or 0,
+             case['tail'] or '')
         if sig not in self.best or k < self.best[sig][0]:
             self.best[sig] = (k, what, case, expected, observed)
 
@@ -793,7 +865,9 @@ def _check_batch(ctx, drv, batch, send_variant, found, stale_variant=True):
     batch = [x if len(x) == 7 else x + ((),) for x in batch]
     lines = [model_line(h, b, rv, p, t or 'C', send_variant, stale_variant, rp) for (h, b, rv, p, t, _, rp) in batch]
     models = drv.ask_many(lines) if drv is not None else [None] * len(lines)
-    for (h, b, rv, p, t, (tag, trace), rp), m in zip(batch, models):
+    for (h, b, rv, p, t, res, rp), m in zip(batch, models):
+        tag, trace = res
+        waits, rejected = getattr(res, 'waits', ()), getattr(res, 'rejected', ())
         case = {'helper': h, 'budget': b, 'reservation': rv, 'script': list(p), 'tail': t}
         if rp:
             case['reserve_plan'] = list(rp)
@@ -803,8 +877,12 @@ def _check_batch(ctx, drv, batch, send_variant, found, stale_variant=True):
         ctx.count('outcome:' + (tag.split(':')[0]))
         ctx.count('consumed:%s' % (lambda n: n if n < 12 else '12+')(sum(1 for e in trace if e[0] != 'r')))
         code_s = '%s %s' % (tag, ','.join(trace) or '-')
-        for sig, what in oracle(h, b, rv, tag, trace):
-            found.add(sig, what, case, 'see property clause', code_s[:700])
+        ctx.count('waits:%s' % ('refused-by-time.sleep' if rejected else 'none' if not waits else
+                                'zero' if not any(waits) else 'positive'))
+        for sig, what in oracle(h, b, rv, tag, trace, waits, rejected):
+            found.add(sig, what, case, 'see property clause',
+                      (code_s + ('  waits: %s' % (list(waits),) if waits or rejected else '') +
+                       ('  refused: time.sleep(%s)' % rejected[0][0] if rejected else ''))[:700])
         if m is not None and m != code_s:
             ctx.disagree('%s budget=%s' % (h, b), case, m, code_s[:700])
         if len(ctx.samples) < 6 and len(p) >= 3 and (len(ctx.samples) % 2 == 0) == (tag == 'ok'):
@@ -812,9 +890,11 @@ def _check_batch(ctx, drv, batch, send_variant, found, stale_variant=True):
 
 
 def run(ctx):
+    global _clock
     drv = _try_driver(ctx)
     found = _Found()
-    with dev11.no_sleep():
+    with dev11.no_sleep() as clock:
+        _clock = clock
         # constants as seen by the driver (translator) vs the live objects
         live = _live_constants()
         if drv is not None:
@@ -875,17 +955,32 @@ def run(ctx):
                 plans.append(('clear_sdr_repository', 4, None, rdepth - 1, rp))
                 plans.append(('sel:gac', None if sel_variant['budget'] is None else 4, None, rdepth, rp))
         # the two constant outcome sequences of the audit findings first (they are the shortest witnesses)
-        _check_batch(ctx, drv, [('sel:entry', None, 7, (), 'O202', run_sel('sel:entry', None, 7, (), 'O202')),
-                                ('sel:gac', None, None, (), 'R', run_sel('sel:gac', None, None, (), 'R')),
-                                ('sel:entry', None, 7, (), 'S0', run_sel('sel:entry', None, 7, (), 'S0')),
+        _check_batch(ctx, drv, [('sel:entry', None, 7, (), 'O202', runner('sel:entry', None, 7)((), 'O202')),
+                                ('sel:gac', None, None, (), 'R', runner('sel:gac', None, None)((), 'R')),
+                                ('sel:entry', None, 7, (), 'S0', runner('sel:entry', None, 7)((), 'S0')),
                                 ('sel:gac', gac_budgets[-1] and 1, None, (), 'S0',
-                                 run_sel('sel:gac', gac_budgets[-1] and 1, None, (), 'S0'))],
+                                 runner('sel:gac', gac_budgets[-1] and 1, None)((), 'S0'))],
                      send_variant, found, stale_variant)
         # the same boundary in the sibling loop, get_sdr_data_helper (bounded by its chunk counter `retry = 20`; theorem
         # data_requests_bounded: any transport): body chunks completed with k < requested bytes, k = 0 included - judged by
         # the oracle only (the scripted SDR device of the model serves exactly the bytes asked for)
+        # every budget of the quantifier (1..6, and 7..12) x every outcome in the FIRST position (and in the second behind
+        # each retried outcome) x every tail, for every helper with a budget: a defect that needs one budget together with
+        # one outcome at one position (a wait computed from the counter: 0.1 * (4 - retry) is negative only for retry = 6
+        # and CEh first) is met whatever the exploration below is cut to
+        batch = []
+        for b in range(1, 13):
+            for h, rv in (('chunk', 3), ('clear', None), ('clear', 7), ('send', None), ('clear_sel', None),
+                          ('clear_sdr_repository', None)):
+                fn = runner(h, b, rv)
+                pre = [(l,) for l in ALPHABET] + [(r, l) for r in ('R', 'T', 'U', 'P', 'B') for l in ALPHABET]
+                for p in pre:
+                    for t in (ALPHABET if len(p) == 1 else ('C', p[-1])):
+                        batch.append((h, b, rv, p, t, fn(p, t)))
+                        ctx.count('first-position:budget-%s' % (b if b <= 6 else '7..12'))
+        _check_batch(ctx, drv, batch, send_variant, found, stale_variant)
         for h in SDR_HELPERS:
-            _check_batch(ctx, None, [(h, 5, None, p, t, run_sdr(h, None, p, t))
+            _check_batch(ctx, None, [(h, 5, None, p, t, runner(h, 5, None)(p, t))
                                      for p in (('C',), ('C', 'S3'), ('C', 'O202', 'S1'), ('C', 'R', 'S2'))
                                      for t in ('S0', 'S1', 'S7')], send_variant, found, stale_variant)
             ctx.count('sdr-short-answers', 12)
@@ -954,6 +1049,7 @@ def run(ctx):
             batch.append((h, b, rv, tuple(letters), t, runner(h, b, rv, rp)(tuple(letters), t), rp))
             ctx.count('random-sel')
         _check_batch(ctx, drv, batch, send_variant, found, stale_variant)
+    _clock = None
     found.flush(ctx)
 
 
@@ -974,16 +1070,25 @@ def replay(ctx, v):
     case = v['case']
     h, b, rv = case['helper'], case['budget'], case.get('reservation')
     rp = tuple(case.get('reserve_plan', ()))
-    with dev11.no_sleep():
+    global _clock
+    with dev11.no_sleep() as clock:
         if h in SEL_HELPERS:
             probe_sel_variant()
-        tag, trace = runner(h, b, rv, rp)(tuple(case['script']), case['tail'] or 'C')
+        _clock = clock
+        try:
+            res = runner(h, b, rv, rp)(tuple(case['script']), case['tail'] or 'C')
+        finally:
+            _clock = None
+        tag, trace = res
     print('%s budget=%s reservation=%s outcomes=%s then %s for ever%s' % (
         h, b, rv, ','.join(case['script']) or '-', case['tail'] or 'C',
         '' if not rp else '; Reserve outcomes %s then granted' % ','.join(rp)))
     shown = trace if len(trace) <= 60 else trace[:40] + ['... (%d more)' % (len(trace) - 40)]
     print('  real code: %s  calls: %s' % (tag, ','.join(shown) or '-'))
-    bad = oracle(h, b, rv, tag, trace)
+    if res.waits or res.rejected:
+        print('  waits asked for (s): %s%s' % (list(res.waits), ''.join(
+            '; time.sleep(%s) -> %s: %s (as the real time.sleep)' % r for r in res.rejected)))
+    bad = oracle(h, b, rv, tag, trace, res.waits, res.rejected)
     for sig, what in bad:
         print('  property: ' + what)
     if h in SDR_HELPERS:
